@@ -33,7 +33,8 @@ SPMAP = {s: i + 1 for i, s in enumerate(cio.SYMBOLS)}
 # ---------------------------------------------------------------------------
 MODEL_INVS = ["TypeOK", "InvOrderIsPermutation", "InvSameCrystal", "InvSameMoments", "InvOrder",
               "InvGroupingIsTrait", "InvIdempotent", "InvForcesPaired", "InvNotRefused", "InvRefusedIffReordered",
-              "InvForcesPairedSameOrder", "InvMispairedOnlyUnchecked"]
+              "InvForcesPairedSameOrder", "InvMispairedOnlyUnchecked", "InvSymPaired", "InvConvertCrystal",
+              "InvConvertible"]
 
 CFG_MODEL = """INIT Init
 NEXT Next
@@ -42,6 +43,8 @@ CONSTANTS
  MaxLen = %d
  NSpecies = 3
  WithMoments = TRUE
+ Tasks <- MCTasks
+ Unpermutes <- MCUnpermutes
 CHECK_DEADLOCK FALSE
 %s
 """ + "\n".join("INVARIANT " + i for i in MODEL_INVS) + "\n"
@@ -49,9 +52,12 @@ CHECK_DEADLOCK FALSE
 MC_MODEL = """---- MODULE MC_Calculators ----
 EXTENDS Calculators
 MCCalcs == AllCalcs
+MCTasks == {"pipeline"}
+MCUnpermutes == {}
 PerfectOnly == phase = "perfect"
 ====
 """
+MC_MODEL_CONVERT = MC_MODEL.replace('{"pipeline"}', '{"convert"}')
 
 
 def run_structure_model(ctx):
@@ -64,6 +70,15 @@ def run_structure_model(ctx):
                                         every_action_fired=all(cov.get(a, 0) > 0 for a in
                                                                ("Choose", "Order", "Write", "Read", "Displace",
                                                                 "Collect", "Agree")))
+    # convert_crystal_structure: every ordered pair of interfaces, species sequences <= 4 (<= 5 thorough)
+    cl = 4 if ctx.quick else 5
+    res = ctx.tlc("MC_Calculators", cfg_text=CFG_MODEL % (cl, ""), extra_files={"MC_Calculators.tla": MC_MODEL_CONVERT},
+                  coverage=True, workers=4, timeout=1500,
+                  what="C17: the conversion model itself violates the requirement")
+    covc = {k: v[1] for k, v in res.coverage.items()}
+    ctx.extra["convert_model"] = dict(max_len=cl, states=res.distinct, pairs=256,
+                                      every_action_fired=all(covc.get(a, 0) > 0 for a in
+                                                             ("ChooseConvert", "Order", "Write", "Read", "Convert")))
     ctx.exhaustive = True
 
 
@@ -86,7 +101,7 @@ def dump_round_trip_space(ctx, maxlen):
 # ---------------------------------------------------------------------------
 # 2. realisation and real round trips
 # ---------------------------------------------------------------------------
-def realise(abs_cell, nprng, offsets=True, edge=False):
+def realise(abs_cell, nprng, offsets=True, edge=False, ncl=False):
     """abstract cell [sp,id,mom] -> triclinic PhonopyAtoms with pairwise distinct
     positions, partly outside [0,1)."""
     n = len(abs_cell)
@@ -105,13 +120,16 @@ def realise(abs_cell, nprng, offsets=True, edge=False):
             elif k % 3 == 2:
                 pos[k, 1] -= 1.0
     moms = [a["mom"] for a in abs_cell]
-    mags = [float(m) for m in moms] if any(moms) else None
+    mags = None
+    if any(moms):
+        mags = [cio.ncl_vector(m) for m in moms] if ncl else [float(m) for m in moms]
     return PhonopyAtoms(symbols=[cio.SYMBOLS[a["sp"] - 1] for a in abs_cell], cell=L, scaled_positions=pos,
                         magnetic_moments=mags)
 
 
 ERR = dict(status="error", atoms=[], latticeOK=False, frameOK=False)
-NOFS = dict(status="none", forces=[])
+NOFS = dict(status="none", forces=[], dispOK=False)
+NOMODE = dict(dtype=1, fz=False, sym=False)
 
 
 def abs_atoms(rows):
@@ -126,14 +144,20 @@ def rt_result(calc, orig, back, idmap=None):
     return dict(status="ok", atoms=abs_atoms(atoms), latticeOK=p["latticeOK"], frameOK=p["frameOK"]), p["margin"]
 
 
-def event(kind, calc, abs_cell, result, fs=None, tag=""):
+def event(kind, calc, abs_cell, result, fs=None, tag="", route="api", ocalc="", ncl=False, mode=None, orbit=None):
     return dict(kind=kind, calc=calc, cell=[dict(sp=a["sp"], id=a["id"], mom=a["mom"]) for a in abs_cell],
-                result=result, fs=fs or NOFS, tag=tag)
+                result=result, fs=fs or NOFS, tag=tag, route=route, ocalc=ocalc, ncl=bool(ncl),
+                mode=dict(mode or NOMODE), orbit=list(orbit or []))
 
 
 def ev_to_tla(d):
-    """event -> TLA+ record of CalculatorsTrace (fields n, kind, ecalc, ecell, eres, fs)"""
-    return to_tla(dict(n=d["n"], kind=d["kind"], ecalc=d["calc"], ecell=d["cell"], eres=d["result"], fs=d["fs"]))
+    """event -> TLA+ record of CalculatorsTrace"""
+    return to_tla(dict(n=d["n"], kind=d["kind"], route=d["route"], ecalc=d["calc"], ocalc=d["ocalc"], ecell=d["cell"],
+                       ncl=d["ncl"], emode=d["mode"], eorbit=d["orbit"], eres=d["result"], fs=d["fs"]))
+
+
+def MOM_OF(i):      # MomOf of Calculators.tla
+    return (-1 - (i % 3)) if i % 2 == 0 else (1 + (i % 3))
 
 
 def api_round_trips(ctx, space, nprng, offsets=True):
@@ -242,27 +266,76 @@ def emit_vasprun(path, cell, forces):
         f.write(t)
 
 
-def supercell_pipeline(ctx, seqs, nprng, smat=((2, 0, 0), (0, 1, 0), (0, 0, 1))):
-    """unit cell -> Phonopy supercell + displacements ->
-    write_supercells_with_displacements -> read every file back; for VASP also a
-    synthetic vasprun.xml per displaced cell -> create_FORCE_SETS."""
+NCL_CALCS = ("abacus", "vasp", "qe")          # Trait[c].ncl of Calculators.tla
+NOMODE = dict(dtype=1, fz=False, sym=False)
+
+
+def attach_magmom_file(calc, back, ncl):
+    """vasp/qe: write_supercells_with_displacements puts the moments into ./MAGMOM in the
+    order of the structure file; attach them to the read-back cell."""
+    if calc not in ("vasp", "qe") or not os.path.exists("MAGMOM"):
+        return back
+    with open("MAGMOM") as f:
+        txt = f.read()
+    vals = [float(x) for x in txt.split("=", 1)[1].split()]
+    arr = np.array(vals).reshape(-1, 3) if ncl else np.array(vals)
+    if len(arr) == len(back):
+        back.magnetic_moments = arr
+    return back
+
+
+def force_tokens(rows, table, tol=None, own=None):
+    """FORCE_SETS rows -> tokens: the id whose vector the row equals (the atom's own id first:
+    symmetry-related atoms can carry identical vectors)."""
+    tol = tol or FORCE_TOL
+    keys = [k_ for k_ in table if k_ != 0]
+    toks, worst = [], 0.0
+    for i, f in enumerate(np.asarray(rows)):
+        dd = [float(np.abs(table[k_] - f).max()) for k_ in keys]
+        j = int(np.argmin(dd))
+        if own is not None and i < len(own) and own[i] in table and float(np.abs(table[own[i]] - f).max()) < tol:
+            j = keys.index(own[i])
+        toks.append(keys[j] if dd[j] < tol else 0)
+        if dd[j] < tol:
+            worst = max(worst, dd[j] / tol)
+    return toks, worst
+
+
+def supercell_pipeline(ctx, seqs, nprng, smat=((2, 0, 0), (0, 1, 0), (0, 0, 1)), dtype=1, fz=False,
+                       moments=None, calcs=None):
+    """unit cell -> Phonopy supercell + displacements (type 1: one atom per cell; type 2:
+    random displacements of all atoms) -> write_supercells_with_displacements -> read every
+    file back; synthetic outputs per displaced cell (and of the perfect supercell with fz)
+    -> create_FORCE_SETS.  moments: None | "col" | "ncl"."""
     from phonopy.cui.create_force_sets import create_FORCE_SETS
     from phonopy.file_IO import parse_FORCE_SETS
     from phonopy.interface.phonopy_yaml import PhonopyYaml
 
     events, margins, nfs = [], {}, 0
+    ncl = moments == "ncl"
+    mode = dict(dtype=dtype, fz=fz, sym=False)
     for seq in seqs:
-        abs_unit = [dict(sp=s, id=i + 1, mom=0) for i, s in enumerate(seq)]
-        unit = realise(abs_unit, nprng, offsets=False, edge=(len(seq) >= 2 and seq[0] != seq[1]))
+        abs_unit = [dict(sp=s, id=i + 1, mom=(MOM_OF(i + 1) if moments else 0)) for i, s in enumerate(seq)]
+        unit = realise(abs_unit, nprng, offsets=False, edge=(len(seq) >= 2 and seq[0] != seq[1]), ncl=ncl)
         with cio.quiet():
             ph = Phonopy(unit, supercell_matrix=[list(r) for r in smat], primitive_matrix=np.eye(3), log_level=0)
-            ph.generate_displacements(distance=0.03, is_plusminus=False)
+            if dtype == 1:
+                ph.generate_displacements(distance=0.03, is_plusminus=False)
+            else:
+                ph.generate_displacements(distance=0.03, number_of_snapshots=2, random_seed=int(nprng.integers(1, 10 ** 6)))
         sc = ph.supercell
         n = len(sc)
-        abs_sc = [dict(sp=SPMAP[s], id=i + 1, mom=0) for i, s in enumerate(sc.symbols)]
-        first = ph.dataset["first_atoms"]
+        scm = sc.magnetic_moments
+        abs_sc = [dict(sp=SPMAP[s], id=i + 1, mom=(cio.moment_token(scm[i]) if scm is not None else 0))
+                  for i, s in enumerate(sc.symbols)]
         dcells = ph.supercells_with_displacements
-        for calc in cio.CALCS:
+        if dtype == 1:
+            moved = [[fa["number"]] for fa in ph.dataset["first_atoms"]]
+        else:
+            moved = [list(range(n)) for _ in dcells]
+        for calc in (calcs or cio.CALCS):
+            if ncl and calc not in NCL_CALCS:
+                continue
             with_fs = calc == "vasp" or calc in cio.FORCE_EMITTERS
             nwrite = len(dcells) if with_fs else min(3, len(dcells))
             with cio.workdir():
@@ -275,24 +348,29 @@ def supercell_pipeline(ctx, seqs, nprng, smat=((2, 0, 0), (0, 1, 0), (0, 0, 1)))
                         write_supercells_with_displacements(calc, sc, dcells[:nwrite], optional_structure_info=info,
                                                             additional_info={"supercell_matrix": ph.supercell_matrix})
                 except Exception as e:  # noqa: BLE001
-                    events.append(event("rt", calc, abs_sc, dict(ERR), tag="write_supercells_with_displacements: %s: %s"
-                                        % (type(e).__name__, e)))
-                    ctx.count(("sc", calc, tuple(seq)))
+                    events.append(event("rt", calc, abs_sc, dict(ERR), route="sc", ncl=ncl,
+                                        tag="write_supercells_with_displacements: %s: %s" % (type(e).__name__, e)))
+                    ctx.count(("sc", calc, tuple(seq), dtype, fz, moments))
                     continue
                 fs_files, fs_rows = [], []
+                resid = nprng.uniform(-0.5, 0.5, size=(n, 3))
+                resid -= resid.mean(axis=0)
                 for k in range(0, nwrite + 1):
                     if k == 0:
                         orig, acell, idmap, fname = sc, abs_sc, None, SC_FILES[calc][0]
                     else:
-                        d = first[k - 1]["number"]
                         orig = dcells[k - 1]
-                        acell = [dict(a) for a in abs_sc]
-                        acell[d]["id"] = n + d + 1
-                        idmap = {d + 1: n + d + 1}
+                        acell = [dict(a_) for a_ in abs_sc]
+                        idmap = {}
+                        for d in moved[k - 1]:
+                            acell[d]["id"] = n + d + 1
+                            idmap[d + 1] = n + d + 1
                         fname = SC_FILES[calc][1] % k
                     try:
                         cio.post_write(calc, fname, info)
                         back = parse_poscar(fname) if calc == "vasp" else cio.read_back(calc, fname)
+                        if moments:
+                            back = attach_magmom_file(calc, back, ncl)
                         r, m = rt_result(calc, orig, back, idmap)
                         margins[calc] = max(margins.get(calc, 0.0), m)
                     except Exception as e:  # noqa: BLE001
@@ -300,59 +378,240 @@ def supercell_pipeline(ctx, seqs, nprng, smat=((2, 0, 0), (0, 1, 0), (0, 0, 1)))
                         tag = "%s: %s: %s" % (fname, type(e).__name__, e)
                     else:
                         tag = fname
-                    ctx.count(("sc", calc, tuple(seq), k, smat))
-                    if with_fs and k > 0 and back is not None:
-                        # force token id -> vector (zero sum over the atoms of this cell: most parsers
-                        # subtract the drift); token 0 = "none of them"
-                        ids = [a["id"] for a in acell]
-                        v = nprng.uniform(-1.0, 1.0, size=(len(ids), 3))
-                        v -= v.mean(axis=0)
-                        fvec = {i_: v_ for i_, v_ in zip(ids, v)}
-                        fvec[0] = np.array([7.0, 7.0, 7.0])
-                        toks = [a["id"] for a in r["atoms"]]
-                        ff = [fvec.get(t, fvec[0]) for t in toks]
+                    ctx.count(("sc", calc, tuple(seq), k, smat, dtype, fz, moments))
+                    if with_fs and back is not None and (k > 0 or fz):
+                        toks = [a_["id"] for a_ in r["atoms"]]
+                        if k == 0:      # output of the perfect supercell: the residual forces, in file order
+                            ff = [resid[t - 1] if 1 <= t <= n else np.array([7.0, 7.0, 7.0]) for t in toks]
+                            fvec = None
+                        else:
+                            # force token id -> vector (zero sum over the atoms of this cell: most parsers
+                            # subtract the drift); token 0 = "none of them"
+                            ids = [a_["id"] for a_ in acell]
+                            v = nprng.uniform(-1.0, 1.0, size=(len(ids), 3))
+                            v -= v.mean(axis=0)
+                            fvec = {i_: v_ for i_, v_ in zip(ids, v)}
+                            fvec[0] = np.array([7.0, 7.0, 7.0])
+                            ff = []
+                            for t in toks:
+                                f_ = fvec.get(t, fvec[0]).copy()
+                                if fz and t > 0:
+                                    f_ = f_ + resid[(t - n - 1) if t > n else (t - 1)]
+                                ff.append(f_)
                         if calc == "vasp":
                             emit_vasprun("vasprun-%03d.xml" % k, back, ff)
                             fs_files.append("vasprun-%03d.xml" % k)
                         else:
                             fs_files.append(cio.emit_output(calc, "calcout-%03d" % k, back, ff, supercell_lattice=sc.cell))
-                        fs_rows.append((acell, r, tag, fvec))
-                    else:
-                        events.append(event("rt", calc, acell, r, tag=tag))
-                if with_fs and len(fs_files) == len(dcells):
+                        if k > 0:
+                            fs_rows.append((acell, r, tag, fvec))
+                    if not (with_fs and k > 0 and back is not None):
+                        events.append(event("rt", calc, acell, r, route="sc", ncl=ncl, tag=tag))
+                if with_fs and len(fs_rows) == len(dcells) and len(fs_files) == len(dcells) + (1 if fz else 0):
                     with cio.quiet():
                         ph.save("phonopy_disp.yaml")
                         phyml = PhonopyYaml()
                         phyml.read("phonopy_disp.yaml")
-                    try:
-                        with cio.quiet():
-                            create_FORCE_SETS(calc, fs_files, phpy_yaml=phyml, disp_filename="phonopy_disp.yaml",
-                                              log_level=0)
-                        if os.path.exists("FORCE_SETS"):
-                            ds = parse_FORCE_SETS(filename="FORCE_SETS")
-                            fss = []
-                            for fa, row in zip(ds["first_atoms"], fs_rows):
-                                toks = []
-                                fv = row[3]
-                                keys = [k_ for k_ in fv if k_ != 0]
-                                for f in np.asarray(fa["forces"]):
-                                    dd = [float(np.abs(fv[k_] - f).max()) for k_ in keys]
-                                    j = int(np.argmin(dd))
-                                    toks.append(keys[j] if dd[j] < FORCE_TOL else 0)
-                                    if dd[j] < FORCE_TOL:
-                                        margins["forces"] = max(margins.get("forces", 0.0), dd[j] / FORCE_TOL)
-                                fss.append(dict(status="built", forces=toks))
-                        else:
-                            fss = [dict(status="error", forces=[])] * len(fs_files)
-                    except RuntimeError as e:
-                        st = "refused" if "Displacements don't match" in str(e) else "error"
-                        fss = [dict(status=st, forces=[])] * len(fs_files)
-                    except Exception:  # noqa: BLE001
-                        fss = [dict(status="error", forces=[])] * len(fs_files)
+                    fss = collect_force_sets(calc, fs_files, phyml, ph, fs_rows, fz, margins)
                     for (acell, r, tag, _fv), fs in zip(fs_rows, fss):
-                        events.append(event("forces", calc, acell, r, fs=fs, tag=tag + " + create_FORCE_SETS"))
+                        events.append(event("forces", calc, acell, r, fs=fs, route="sc", ncl=ncl, mode=mode,
+                                            orbit=list(range(1, n + 1)),
+                                            tag=tag + " + create_FORCE_SETS(type %d%s)" % (dtype, ", fz" if fz else "")))
                         nfs += 1
     return events, margins, nfs
+
+
+def collect_force_sets(calc, fs_files, phyml, ph, fs_rows, fz, margins, **kw):
+    """create_FORCE_SETS on the synthetic outputs -> projected FORCE_SETS per displaced cell."""
+    from phonopy.cui.create_force_sets import create_FORCE_SETS
+    from phonopy.file_IO import parse_FORCE_SETS
+
+    K = len(fs_rows)
+    n = len(ph.supercell)
+    try:
+        with cio.quiet():
+            create_FORCE_SETS(calc, fs_files, phpy_yaml=phyml, disp_filename="phonopy_disp.yaml",
+                              force_sets_zero_mode=fz, log_level=0, **kw)
+        if not os.path.exists("FORCE_SETS"):
+            return [dict(status="error", forces=[], dispOK=False)] * K
+        ds = parse_FORCE_SETS(natom=n, filename="FORCE_SETS")
+        fss = []
+        if "first_atoms" in ds:
+            ref = ph.dataset["first_atoms"]
+            sets = [(np.asarray(fa["forces"]), fa["number"] == rf["number"]
+                     and float(np.abs(np.asarray(fa["displacement"]) - np.asarray(rf["displacement"])).max()) < 1e-12)
+                    for fa, rf in zip(ds["first_atoms"], ref)]
+            if len(ds["first_atoms"]) != len(ref):
+                return [dict(status="error", forces=[], dispOK=False)] * K
+        else:
+            ref = np.asarray(ph.dataset["displacements"])
+            got = np.asarray(ds["displacements"])
+            if got.shape != ref.shape:
+                return [dict(status="error", forces=[], dispOK=False)] * K
+            sets = [(np.asarray(ds["forces"][i]), float(np.abs(got[i] - ref[i]).max()) < 1e-7) for i in range(len(ref))]
+        for (frc, dok), row in zip(sets, fs_rows):
+            toks, w = force_tokens(frc, row[3], own=[a_["id"] for a_ in row[0]])
+            margins["forces"] = max(margins.get("forces", 0.0), w)
+            fss.append(dict(status="built", forces=toks, dispOK=bool(dok)))
+        return fss
+    except RuntimeError as e:
+        st = "refused" if ("don't match" in str(e) or "doesn't match" in str(e)) else "error"
+        return [dict(status=st, forces=[], dispOK=False)] * K
+    except Exception:  # noqa: BLE001
+        return [dict(status="error", forces=[], dispOK=False)] * K
+
+
+# ---------------------------------------------------------------------------
+# 2b. WIEN2k: forces of non-equivalent atoms only (symmetric struct file) vs P1
+# ---------------------------------------------------------------------------
+def wien2k_force_sets(ctx, nprng):
+    """A symmetric crystal of the exact spring-model catalogue; harmonic forces
+    F = -Phi u (equivariant under the displaced cell's space group because Phi has the
+    crystal's exact space group); case.scf lists all atoms (P1) or the last member of
+    every orbit of the displaced cell's space group (computed here by brute force)."""
+    from harness.oracle import Oracle
+    from phonopy.interface.phonopy_yaml import PhonopyYaml
+
+    events, nfs, margins = [], 0, {}
+    S = [[2, 0, 0], [0, 2, 0], [0, 0, 2]]
+    for entry in ("cscl",) if ctx.quick else ("cscl", "sc", "bcc"):
+        orc = Oracle(entry, [S], a=2.5, seed=ctx.seed, ctx=ctx)
+        unit = orc.unitcell()
+        ops = [np.array(a_[0]) for a_ in orc.o["aut"]]
+        for dtype in (1, 2):
+            with cio.quiet():
+                ph = Phonopy(unit, supercell_matrix=S, primitive_matrix=np.eye(3), log_level=0)
+                if dtype == 1:
+                    ph.generate_displacements(distance=0.02)
+                else:
+                    ph.generate_displacements(distance=0.02, number_of_snapshots=2, random_seed=7 + ctx.seed)
+            fc = orc.supercell_fc(S, ph.supercell)
+            sc = ph.supercell
+            n = len(sc)
+            abs_sc = [dict(sp=SPMAP[s_], id=i + 1, mom=0) for i, s_ in enumerate(sc.symbols)]
+            dcells = ph.supercells_with_displacements
+            if dtype == 1:
+                U = []
+                for fa in ph.dataset["first_atoms"]:
+                    u = np.zeros((n, 3))
+                    u[fa["number"]] = fa["displacement"]
+                    U.append(u)
+                moved = [[fa["number"]] for fa in ph.dataset["first_atoms"]]
+            else:
+                U = [np.asarray(u) for u in ph.dataset["displacements"]]
+                moved = [list(range(n)) for _ in U]
+            truth = [-np.einsum("ijab,jb->ia", fc, u) for u in U]
+            for variant in ("p1", "p1flag", "sym", "fz"):
+                if variant == "sym" and dtype == 2:
+                    continue
+                with cio.workdir():
+                    info = cio.handmade_info("wien2k", unit, "unit.in")
+                    with cio.quiet():
+                        write_supercells_with_displacements("wien2k", sc, dcells, optional_structure_info=info,
+                                                            additional_info={"supercell_matrix": ph.supercell_matrix})
+                    files, rows, orbits = [], [], []
+                    resid = nprng.uniform(-0.01, 0.01, size=(n, 3))
+                    resid -= resid.mean(axis=0)
+                    if variant == "fz":
+                        files.append(cio.emit_wien2k_scf("case-000.scf", sc.cell, sc.scaled_positions, resid, list(range(n))))
+                    for k, dc in enumerate(dcells):
+                        acell = [dict(a_) for a_ in abs_sc]
+                        idmap = {}
+                        for d in moved[k]:
+                            acell[d]["id"] = n + d + 1
+                            idmap[d + 1] = n + d + 1
+                        back = cio.read_back("wien2k", SC_FILES["wien2k"][1] % (k + 1))
+                        r, m = rt_result("wien2k", dc, back, idmap)
+                        margins["wien2k"] = max(margins.get("wien2k", 0.0), m)
+                        if variant == "sym":
+                            orb, nops = cio.stabiliser_orbits(dc.symbols, dc.scaled_positions, ops)
+                            first = {}
+                            for i_, o_ in enumerate(orb):
+                                first.setdefault(o_, i_ + 1)
+                            orbit = [first[o_] for o_ in orb]                       # smallest member, 1-based
+                            listed = sorted({max(i_ for i_ in range(n) if orb[i_] == o_) for o_ in set(orb)})
+                            ctx.extra.setdefault("wien2k_sym", []).append(dict(entry=entry, ops=nops, listed=len(listed), atoms=n))
+                        else:
+                            orbit = list(range(1, n + 1))
+                            listed = list(range(n))
+                        F = truth[k] + (resid if variant == "fz" else 0.0)
+                        files.append(cio.emit_wien2k_scf("case-%03d.scf" % (k + 1), sc.cell, dc.scaled_positions, F, listed))
+                        table = {a_["id"]: truth[k][i_] for i_, a_ in enumerate(acell)}
+                        table[0] = np.array([7.0, 7.0, 7.0])
+                        rows.append((acell, r, "case-%03d.scf" % (k + 1), table))
+                        orbits.append(orbit)
+                    with cio.quiet():
+                        ph.save("phonopy_disp.yaml")
+                        phyml = PhonopyYaml()
+                        phyml.read("phonopy_disp.yaml")
+                    fss = collect_force_sets("wien2k", files, phyml, ph, rows, variant == "fz", margins,
+                                             wien2k_P1_mode=(variant == "p1flag"))
+                    for (acell, r, tag, _t), fs, orbit in zip(rows, fss, orbits):
+                        events.append(event("forces", "wien2k", acell, r, fs=fs, route="sc",
+                                            mode=dict(dtype=dtype, fz=(variant == "fz"), sym=(variant == "sym")),
+                                            orbit=orbit, tag="%s %s (%s, type %d)" % (entry, tag, variant, dtype)))
+                        nfs += 1
+                        ctx.count(("wien2k-fs", entry, variant, dtype, tag))
+    return events, margins, nfs
+
+
+# ---------------------------------------------------------------------------
+# 2c. convert_crystal_structure between every ordered pair of interfaces
+# ---------------------------------------------------------------------------
+def stable_group(abs_cell):
+    red = list(dict.fromkeys(a_["sp"] for a_ in abs_cell))
+    return [a_ for s_ in red for a_ in abs_cell if a_["sp"] == s_]
+
+
+def conversions(ctx, seqs, nprng, dist):
+    """dist: calculator -> length unit / Angstrom, evaluated from Units.tla's required table."""
+    from phonopy.interface.calculator import convert_crystal_structure
+
+    events, margins = [], {}
+    for seq in seqs:
+        abs_cell = [dict(sp=s_, id=i + 1, mom=0) for i, s_ in enumerate(seq)]
+        cell = realise(abs_cell, nprng)
+        for a in cio.CALCS:
+            with cio.workdir():
+                try:
+                    if a == "fleur":   # the model's input file of a grouping interface is grouped (as phonopy writes it)
+                        g = stable_group(abs_cell)
+                        src = PhonopyAtoms(symbols=[cell.symbols[x["id"] - 1] for x in g], cell=cell.cell,
+                                           scaled_positions=[cell.scaled_positions[x["id"] - 1] for x in g])
+                        cio.unit_input(a, src, "unit.in")
+                    else:
+                        cio.unit_input(a, cell, "unit.in")
+                except Exception as e:  # noqa: BLE001
+                    events.append(event("convert", a, abs_cell, dict(ERR), ocalc=a, tag="input file: %s" % e))
+                    continue
+                top = os.getcwd()
+                for b in cio.CALCS:
+                    out = "conv_%s" % b
+                    try:
+                        if a == "turbomole":
+                            os.chdir("tm_unit")
+                            fin, fout = "control", os.path.join("..", out)
+                        else:
+                            fin, fout = "unit.in", out
+                        with cio.quiet():
+                            convert_crystal_structure(fin, a, fout, b)
+                        os.chdir(top)
+                        back = cio.read_back(b, out)
+                        expect = PhonopyAtoms(symbols=cell.symbols, cell=cell.cell * (dist[a] / dist[b]),
+                                              scaled_positions=cell.scaled_positions)
+                        tol = dict(frac=max(cio.TOL[a]["frac"], cio.TOL[b]["frac"]) * 2,
+                                   lat=max(cio.TOL[a]["lat"], cio.TOL[b]["lat"]) * 2)
+                        p = cio.project(b, expect, back, SPMAP, tol=tol)
+                        r = dict(status="ok", atoms=abs_atoms(p["atoms"]), latticeOK=p["latticeOK"], frameOK=p["frameOK"])
+                        margins[b] = max(margins.get(b, 0.0), p["margin"])
+                        tag = "convert %s -> %s" % (a, b)
+                    except Exception as e:  # noqa: BLE001
+                        os.chdir(top)
+                        r = dict(ERR)
+                        tag = "convert %s -> %s: %s: %s" % (a, b, type(e).__name__, e)
+                    events.append(event("convert", a, abs_cell, r, ocalc=b, tag=tag))
+                    ctx.count(("convert", a, b, tuple(seq)))
+    return events, margins
 
 
 # ---------------------------------------------------------------------------
@@ -360,8 +619,9 @@ def supercell_pipeline(ctx, seqs, nprng, smat=((2, 0, 0), (0, 1, 0), (0, 0, 1)))
 # ---------------------------------------------------------------------------
 JUDGE_NAMES = ["ImplNoError", "ImplSameCrystal", "ImplSameMoments", "ImplOrder", "ImplLattice", "ImplFrame",
                "ImplForcesNoError", "ImplForcesPaired", "ImplNotRefused", "ConformsOrder", "ConformsForces",
-               "ImplForcesPairedSameOrder"]
-MACHINE_INVS = ["TInvSameCrystal", "TInvOrder", "TInvForcesPaired"]
+               "ImplForcesPairedSameOrder", "ImplDisplacementsKept", "ImplSymPaired", "ImplConvertible",
+               "ImplConvertCrystal"]
+MACHINE_INVS = ["TInvSameCrystal", "TInvOrder", "TInvForcesPaired", "TInvConvert", "TInvSym"]
 
 CFG_TRACE = """INIT TInit
 NEXT TNext
@@ -370,6 +630,8 @@ CONSTANTS
  MaxLen = 1
  NSpecies = 3
  WithMoments = FALSE
+ Tasks <- MCTasks
+ Unpermutes <- MCUnpermutes
  Events <- MCEvents
 CHECK_DEADLOCK FALSE
 %s
@@ -378,6 +640,8 @@ CHECK_DEADLOCK FALSE
 MC_TRACE = """---- MODULE MC_CalculatorsTrace ----
 EXTENDS CalculatorsTrace
 MCCalcs == AllCalcs
+MCTasks == {}
+MCUnpermutes == {}
 MCEvents == {%s}
 ====
 """
@@ -431,13 +695,23 @@ def validate_structure_events(ctx, events, label):
                                                                corrupted_rejected=len(corrupted))
     if not verdicts:
         return
+    def cls(d):
+        c = d["calc"]
+        if d["kind"] == "read":
+            c += ":read"
+        if d["kind"] == "convert":
+            c += ":to-" + d["ocalc"]
+        if d["kind"] == "forces":
+            c += "".join(t for t, on in ((":type2", d["mode"]["dtype"] == 2), (":fz", d["mode"]["fz"]),
+                                         (":sym", d["mode"]["sym"])) if on)
+        if d["ncl"]:
+            c += ":ncl"
+        return c
     classes = {}
     for n, names in sorted(verdicts.items()):
-        classes.setdefault((evs[n][0]["calc"] + (":read" if evs[n][0]["kind"] == "read" else ""), names), n)
+        classes.setdefault((cls(evs[n][0]), names), n)
     ctx.extra.setdefault("failing_classes", {})[label] = sorted(
-        "%s:%s x%d" % (c, "+".join(sorted(nm)),
-                       sum(1 for k, v in verdicts.items() if v == nm and evs[k][0]["calc"] == c.split(":")[0]
-                           and (evs[k][0]["kind"] == "read") == c.endswith(":read")))
+        "%s:%s x%d" % (c, "+".join(sorted(nm)), sum(1 for k, v in verdicts.items() if v == nm and cls(evs[k][0]) == c))
         for (c, nm) in classes)
     reps = sorted(set(classes.values()))
     res = ctx.tlc("MC_CalculatorsTrace", cfg_text=CFG_TRACE % "\n".join("INVARIANT " + i for i in JUDGE_NAMES + MACHINE_INVS),
@@ -615,6 +889,7 @@ def run_units(ctx):
     # constants used inside writers/readers but not in the tables (recorded, not judged)
     import phonopy.units as pu
     ctx.extra["unit_constants_note"] = dict(dftbpToBohr_times_Bohr_minus_1=pu.dftbpToBohr * pu.Bohr - 1.0)
+    return rows
 
 
 # ---------------------------------------------------------------------------
@@ -672,40 +947,87 @@ def run(ctx):
             space.append((calc, [dict(sp=s_, id=i + 1, mom=0) for i, s_ in enumerate(seq)], None))
     ev1, m1 = api_round_trips(ctx, space, nprng)
     lap("api round trips")
+    import itertools
     L = 3 if ctx.quick else 4
-    seqs = [list(t) for n in range(1, L + 1) for t in __import__("itertools").product((1, 2, 3), repeat=n)]
+    seqs = [list(t) for n in range(1, L + 1) for t in itertools.product((1, 2, 3), repeat=n)]
     if ctx.quick:
-        # all sequences of length <= 2, and a seed-dependent half of those of length 3
+        # all sequences of length <= 2, and a seed-dependent part of those of length 3
         l3 = [s for s in seqs if len(s) == 3]
         ctx.rng.shuffle(l3)
-        seqs = [s for s in seqs if len(s) < 3] + l3[:14] + [[1, 2, 1], [1, 1, 2]]
+        seqs = [s for s in seqs if len(s) < 3] + l3[:8] + [[1, 2, 1], [1, 1, 2]]
     ev2, m2, nfs = supercell_pipeline(ctx, seqs, nprng)
+
+    def more(evm):
+        nonlocal ev2, m2, nfs
+        e_, m_, n_ = evm
+        ev2 += e_
+        nfs += n_
+        m2 = {c: max(m2.get(c, 0.0), m_.get(c, 0.0)) for c in set(m2) | set(m_)}
+    # the other modes: type-2 datasets, --fz, moments (collinear through every interface, non-collinear where
+    # the interface has a route for them); quick: a seed-dependent handful of unit cells per mode
+    variants = [dict(dtype=2), dict(dtype=1, fz=True), dict(dtype=2, fz=True), dict(moments="col"),
+                dict(moments="ncl"), dict(dtype=2, moments="col")]
+    pool = [s for s in seqs if 2 <= len(s) <= 3]
+    for vi, v in enumerate(variants):
+        if ctx.quick:
+            ctx.rng.shuffle(pool)
+            sub = pool[:3] + [[1, 2, 1], [2, 1]][: 1 + (vi + ctx.seed) % 2]
+        else:
+            sub = [s for s in seqs if len(s) <= 3]
+        more(supercell_pipeline(ctx, sub, nprng, **v))
     if not ctx.quick:     # a non-diagonal supercell matrix and cells without offsets as well
-        ev2b, m2b, nfsb = supercell_pipeline(ctx, [s_ for s_ in seqs if len(s_) <= 3], nprng,
-                                             smat=((1, 1, 0), (0, 1, 0), (0, 0, 2)))
-        ev2 += ev2b
-        nfs += nfsb
-        m2 = {c: max(m2.get(c, 0.0), m2b.get(c, 0.0)) for c in set(m2) | set(m2b)}
+        more(supercell_pipeline(ctx, [s_ for s_ in seqs if len(s_) <= 3], nprng, smat=((1, 1, 0), (0, 1, 0), (0, 0, 2))))
+        more(supercell_pipeline(ctx, [s_ for s_ in seqs if len(s_) <= 2], nprng, smat=((1, 1, 0), (0, 1, 0), (0, 0, 2)),
+                                dtype=2, fz=True))
         ev1b, m1b = api_round_trips(ctx, [t for t in space if len(t[1]) <= 4], nprng, offsets=False)
         ev1 += ev1b
         m1 = {c: max(m1.get(c, 0.0), m1b.get(c, 0.0)) for c in set(m1) | set(m1b)}
-    lap("supercell pipeline")
-    margins = {c: max(m1.get(c, 0.0), m2.get(c, 0.0)) for c in cio.CALCS + ["forces"]}
+    lap("supercell pipelines")
+    more(wien2k_force_sets(ctx, nprng))
+    lap("wien2k force sets")
+    rows = run_units(ctx)
+    lap("units")
+    dist = {c: cu.evaluate(rows[c]["dist"]) for c in cio.CALCS}
+    cseqs = [list(t) for n in range(1, (3 if ctx.quick else 4) + 1) for t in itertools.product((1, 2, 3), repeat=n)]
+    if ctx.quick:
+        l3 = [s for s in cseqs if len(s) == 3]
+        ctx.rng.shuffle(l3)
+        cseqs = [s for s in cseqs if len(s) < 3][:: 2 if ctx.seed % 2 else 1][:8] + l3[:5] + [[1, 2, 1]]
+    ev3, m3 = conversions(ctx, cseqs, nprng, dist)
+    lap("conversions")
+    margins = {c: max(m1.get(c, 0.0), m2.get(c, 0.0), m3.get(c, 0.0)) for c in cio.CALCS + ["forces"]}
     ctx.extra["format_margins"] = margins     # observed error / tolerance per calculator (matched atoms only)
     ctx.extra["cp2k_standin"] = cio.CP2K_STANDIN
     ctx.extra["force_set_events"] = nfs
+    ctx.extra["conversion_events"] = dict(total=len(ev3), converted=sum(1 for e in ev3 if e["result"]["status"] == "ok"))
+    fsx_ = [e for e in ev2 if e["kind"] == "forces"]
+    ctx.extra["mode_counts"] = dict(
+        type1=sum(1 for e in fsx_ if e["mode"]["dtype"] == 1 and not e["mode"]["fz"]),
+        type2=sum(1 for e in fsx_ if e["mode"]["dtype"] == 2 and not e["mode"]["fz"]),
+        fz_type1=sum(1 for e in fsx_ if e["mode"]["dtype"] == 1 and e["mode"]["fz"]),
+        fz_type2=sum(1 for e in fsx_ if e["mode"]["dtype"] == 2 and e["mode"]["fz"]),
+        wien2k_sym=sum(1 for e in fsx_ if e["mode"]["sym"]),
+        wien2k=sum(1 for e in fsx_ if e["calc"] == "wien2k"),
+        with_moments=sum(1 for e in ev2 if any(a_["mom"] for a_ in e["cell"])),
+        noncollinear=sum(1 for e in ev2 if e["ncl"]),
+        refused=sum(1 for e in fsx_ if e["fs"]["status"] == "refused"))
+    # outside the property as worded (outputs without positions): grouping writers + interleaved supercell
+    mp = [e for e in fsx_ if e["fs"]["status"] == "built" and e["fs"]["forces"] != [a_["id"] for a_ in e["cell"]]]
+    ctx.extra["unchecked_mispaired_real_runs"] = dict(count=len(mp), calcs=sorted({e["calc"] for e in mp}))
     ctx.sample(ev1[len(ev1) // 3])
     ctx.sample(ev2[len(ev2) // 2])
     fsx = [e for e in ev2 if e["kind"] == "forces"]
     if fsx:
         ctx.sample(fsx[0])
-        ctx.sample(fsx[-1])
+        ctx.sample([e for e in fsx if e["mode"]["fz"]][-1])
+        ctx.sample([e for e in fsx if e["mode"]["sym"]][-1])
+    ctx.sample([e for e in ev3 if e["result"]["status"] == "ok"][-1])
     validate_structure_events(ctx, ev1, "api")
     lap("trace validation api")
     validate_structure_events(ctx, ev2, "supercells")
     lap("trace validation supercells")
-    run_units(ctx)
-    lap("units")
+    validate_structure_events(ctx, ev3, "conversions")
+    lap("trace validation conversions")
     ctx.assumptions += [
         "e^2/(4 pi eps0) = Hartree*Bohr (eV Angstrom) - the definition of the atomic units used by phonopy/units.py",
         "own emitters (CRYSTAL output geometry block, Fleur inpgen input, CP2K input, vasprun.xml) and own parsers "
@@ -715,4 +1037,6 @@ def run(ctx):
         "qe/siesta writers emit partial inputs; the adapter un-comments qe's ibrav/nat/ntyp line and prepends siesta's "
         "ChemicalSpeciesLabel block (traits)",
         "only VASP output carries positions; for the other 15 calculators FORCE_SETS pairs forces by file order unchecked",
+        "WIEN2k :FGL components are read as components along the normalised lattice vectors (phonopy's reading, trusted); "
+        "the symmetric case.scf lists the last atom of every orbit of the displaced cell's space group",
     ]
